@@ -80,11 +80,25 @@ func runMint(seed int64, histories, steps int, out *Emitter) {
 		}
 		// users hold a second denomination only, so that user 3 (the stipend account) starts at 0 ujkl
 		c := NewChain(4, []string{"utest"}, mut)
+		// the parameters as governance set them (by key) — what the blocks are judged against, whatever
+		// the keeper hands back
+		want := c.A.MintKeeper.GetParams(c.Ctx())
 		for i := 0; i < steps; i++ {
 			pre := c.mintAbs(c.H)
 			if c.InBlk {
 				if r.Intn(12) == 0 { // governance changes the parameters between blocks
-					c.A.MintKeeper.SetParams(c.Ctx(), randMintParams(r, stipend))
+					np, old := randMintParams(r, stipend), c.A.MintKeeper.GetParams(c.Ctx())
+					ch := map[string]int64{}
+					for k, v := range map[string][2]int64{"TokensPerBlock": {np.TokensPerBlock, old.TokensPerBlock}, "DevGrants": {np.DevGrantsRatio, old.DevGrantsRatio},
+						"MintIncrease": {np.MintDecrease, old.MintDecrease}, "StakerRatio": {np.StakerRatio, old.StakerRatio}, "ProviderRatio": {np.StorageProviderRatio, old.StorageProviderRatio}} {
+						if v[0] != v[1] {
+							ch[k] = v[0]
+						}
+					}
+					if err := c.GovSetParams(c.Ctx(), minttypes.ModuleName, ch); err != nil {
+						panic(err)
+					}
+					want.TokensPerBlock, want.DevGrantsRatio, want.MintDecrease, want.StakerRatio, want.StorageProviderRatio = np.TokensPerBlock, np.DevGrantsRatio, np.MintDecrease, np.StakerRatio, np.StorageProviderRatio
 				}
 				if p, _ := c.End(); p != nil {
 					out.Emit(map[string]interface{}{"mod": "panic", "where": "EndBlock", "h": c.H, "panic": fmt.Sprint(p)})
@@ -92,7 +106,7 @@ func runMint(seed int64, histories, steps int, out *Emitter) {
 				}
 				pre = c.mintAbs(c.H)
 			}
-			params := c.A.MintKeeper.GetParams(c.Ctx())
+			params := want
 			if p := c.Begin(6 * time.Second); p != nil {
 				out.Emit(map[string]interface{}{"mod": "panic", "where": "BeginBlock", "h": c.H, "panic": fmt.Sprint(p), "params": paramsJ(params)})
 				break
